@@ -349,3 +349,51 @@ def _roundtrip_scen(what, N, chunk, t_end, tag, window, sites):
             'paths': ex.paths, 'queries': ex.nq + ex.nq_aux, 'solver_s': ex.solver_s, 'steps': ex.steps, 'to_bytes_paths': out['tb'], 'ok': out['fb_ok'], 'err': out['fb_err'],
             'bad': out['bad'][:5], 'panics': panics, 'obligations': asserts + out['checks'] + ex.n_deferred, 'violable': len(out['bad']) + len(panics),
             'samples': out['samples'], 'mir_hash': {what + '::to_bytes': P.by_key[what + '::to_bytes'].hash, what + '::from_bytes': P.by_key[what + '::from_bytes'].hash}}
+
+
+# ---------------------------------------------------------------------------------------------- Z_q tail of SecretKey::from_bytes
+def hadamard_scen(n, which='hadamard_div'):
+    """contract of the summaries used for the Z_q tail of SecretKey::from_bytes: Polynomial::<Felt>::hadamard_div / hadamard_mul
+    never panic and return n canonical elements, for ALL canonical operand vectors (incl. zero divisors). Real MIR of the generic
+    Polynomial code and of Inverse::batch_inverse_or_zero; Felt::inverse_or_zero is summarised by its contract (C12, engine K)."""
+    P = prog()
+    ex = new_exec(P)
+
+    def felts(name):
+        out = []
+        for i in range(n):
+            v = ex.new_input('%s%d' % (name, i), 'u32'); ex.assume(z3.ULT(v.t, Q)); out.append(Agg('Felt', None, (v,)))
+        return out
+
+    def ov_inv(ex, st, fr, args, info):
+        a = args[0].f[0]
+        cnt = ex.user.setdefault('ninv', [0]); cnt[0] += 1
+        r = ex.new_input('inv%d' % cnt[0], 'u32')
+        ex.assume(z3.ULT(r.t, Q))
+        at = z3.BitVecVal(a.t, 32) if a.conc else a.t
+        ex.assume(z3.If(at == 0, r.t == 0, z3.URem(z3.ZeroExt(32, at) * z3.ZeroExt(32, r.t), z3.BitVecVal(Q, 64)) == 1))
+        return Agg('Felt', None, (r,))
+    ex.over['<Felt as Inverse>::inverse_or_zero'] = ov_inv
+    a = Agg('Polynomial', None, (Seq('vec', felts('a')),)); b = Agg('Polynomial', None, (Seq('vec', felts('b')),))
+    out = {'ret': 0, 'bad': []}
+
+    def on_ret(ex, st, rv):
+        out['ret'] += 1
+        cs = rv.f[0].e
+        if len(cs) != n:
+            out['bad'].append({'kind': '%s returns %d coefficients for operands of length %d' % (which, len(cs), n)}); return
+        for c in cs:
+            raw = c.f[0]
+            if not raw.conc:
+                ok, _ = ex.check_local(z3.UGE(raw.t, Q))
+                if ok:
+                    out['bad'].append({'kind': '%s returns a non-canonical element' % which}); return
+    ex.on_return = on_ret
+    fn = P.by_key['Polynomial::' + which]
+    st = ex.start(fn, [temp_ref(a), temp_ref(b)], env={'F': 'Felt'})
+    ex.explore(st)
+    panics = [{'msg': p['msg'], 'site': p['site'], 'model': p['inputs']} for p in ex.panics[:3]]
+    asserts = sum(c[0] for c in ex.assert_sites.values())
+    return {'tag': 'Polynomial::<Felt>::%s on all operand vectors of length %d' % (which, n), 'which': which, 'n': n, 'paths': ex.paths, 'queries': ex.nq, 'solver_s': ex.solver_s,
+            'steps': ex.steps, 'returned': out['ret'], 'bad': out['bad'][:3], 'panics': panics, 'obligations': asserts + out['ret'], 'violable': len(out['bad']) + len(panics),
+            'mir_hash': {'Polynomial::' + which: fn.hash}}
